@@ -1094,6 +1094,40 @@ func main() {
 		b.WriteString(q(f))
 	}
 	b.WriteString("]\n\n")
+	// the production clock: the statements of realClock's methods as source text (the harness supplies its own clock, so
+	// nothing it runs goes through these)
+	b.WriteString("/-- (method of realClock, its top-level statements as source text) -/\ndef realClockMethods : List (String × List String) := [")
+	{
+		var rows []string
+		for _, rel := range files {
+			if parsed[rel] == nil {
+				continue
+			}
+			for _, d := range parsed[rel].Decls {
+				fd, ok := d.(*ast.FuncDecl)
+				if !ok || fd.Body == nil || fd.Recv == nil || len(fd.Recv.List) != 1 {
+					continue
+				}
+				rt := fd.Recv.List[0].Type
+				if st, ok := rt.(*ast.StarExpr); ok {
+					rt = st.X
+				}
+				if id, ok := rt.(*ast.Ident); !ok || id.Name != "realClock" {
+					continue
+				}
+				var stmts []string
+				for _, st := range fd.Body.List {
+					var sb bytes.Buffer
+					printer.Fprint(&sb, fset, st)
+					stmts = append(stmts, q(strings.Join(strings.Fields(sb.String()), " ")))
+				}
+				rows = append(rows, fmt.Sprintf("(%s, [%s])", q(fd.Name.Name), strings.Join(stmts, ", ")))
+			}
+		}
+		sort.Strings(rows)
+		b.WriteString(strings.Join(rows, ", "))
+	}
+	b.WriteString("]\n\n")
 	b.WriteString("/-- fields of struct template -/\ndef templateFields : List (String × String) := [")
 	for i, f := range tplFields {
 		if i > 0 {
